@@ -25,6 +25,9 @@ RULE = (
 )
 BOUNDS = "items 1..4, respondents 0..16"
 ASSUMPTIONS = [
+    "sub-check zz9-id-scheme asserts the precedence the library documents for an MR with "
+    "insertions (element id written as a string wins over an equal sub-variable id of another "
+    "item); only alias / element-id spellings of real items are compared there",
     "a spelling that is also a spelling of another item (collision) is not used: the "
     "statement cannot define a winner",
     "element-transform keys are strings or ints (JSON object keys / python dicts)",
@@ -263,8 +266,73 @@ def judge(case, rec):
                           "result", "stale-ref-reuse")
 
 
+# ------------------------------------------------------------------ zz9 id scheme
+@st.composite
+def zz9_case_st(draw):
+    """The id scheme real zz9 payloads use for an MR with insertions: element ids 1..n in
+    payload order (derived items included), sub-variable ids "1".."m" for the m real items
+    (the derived item's sub-variable id is its name).  Then str(element id) of one item can
+    equal the sub-variable id of ANOTHER item; the library documents that the element id
+    wins when the MR has insertions (comment + example in translate_element_id)."""
+    n = draw(S.n_st(16))
+    var = draw(S.mr_var_st("m", n, min_items=2, max_items=4, eid_scheme="one"))
+    S.add_derived_item(draw, var)
+    real = 0
+    for pos, it in enumerate(var["items"]):
+        it["eid"] = pos + 1
+        if it.get("derived"):
+            it["sid"] = it["name"]
+        else:
+            real += 1
+            it["sid"] = str(real)
+    other = draw(S.cat_var_st("c", n, max_valid=4, allow_order_key=False))
+    mr_first = draw(st.booleans())
+    svars = {"m": var, "c": other}
+    dims = [{"var": "m"}, {"var": "c"}] if mr_first else [{"var": "c"}, {"var": "m"}]
+    return {"survey": {"n": n, "weights": None, "vars": svars},
+            "query": {"dims": dims, "weighted": False}, "shape": ["zz9-mr-hs"],
+            "axis": 0 if mr_first else 1,
+            "slot": draw(st.sampled_from(SLOTS)), "pick": draw(st.integers(0, 4)),
+            "direction": draw(st.sampled_from(["ascending", "descending"]))}
+
+
+def judge_zz9(case, rec):
+    sv, q = case["survey"], case["query"]
+    resp = zz9enc.encode(sv, q)
+    dims = apparent_dims(sv, q)
+    axis = case["axis"]
+    own = dims[axis]
+    names = ["rows_dimension", "columns_dimension"]
+    own_name, opp_name = names[axis], names[1 - axis]
+    items = own.var["items"]
+    real = [i for i, it in enumerate(items) if not it.get("derived")]
+    x = real[case["pick"] % len(real)]
+    it = items[x]
+    rec.event("slot=" + case["slot"])
+    # spellings the documentation defines for a REAL item of an MR with insertions
+    sp = {"alias": it["alias"], "element-id-int": it["eid"], "element-id-str": str(it["eid"])}
+    collides = any(o["sid"] == str(it["eid"]) for k, o in enumerate(items) if k != x)
+    if collides:
+        rec.nontrivial()
+        rec.event("str(element id) equals another item's sub-variable id")
+    runs = {rule: observe(lib.cube(resp, build_transforms(case, own_name, opp_name, ref))
+                          .partitions[0]) for rule, ref in sp.items()}
+    for rule, ob in runs.items():
+        rec.compared()
+        k = same(runs["alias"], ob)
+        if k is not None:
+            rec.violation(
+                "MR with insertions, zz9 id scheme: item %d referenced as %r (%s) gives %s %r "
+                "but as alias %r gives %r" % (x, sp[rule], rule, k,
+                                              ob[k].tolist() if k == "counts" else ob[k],
+                                              sp["alias"], runs["alias"][k].tolist()
+                                              if k == "counts" else runs["alias"][k]),
+                "zz9-" + rule)
+
+
 SUBCHECKS = [
     SubCheck("spellings", case_st(), judge, quick=3200, thorough=40000),
+    SubCheck("zz9-id-scheme", zz9_case_st(), judge_zz9, quick=1600, thorough=20000),
     # coverage-guided tier (thorough only): atheris drives the same strategy and judge
     fuzz_subcheck("fuzz-spellings", "spellings", quick_runs=0, thorough_runs=12000),
 ]
